@@ -66,6 +66,8 @@ CFG = {
     ],
 }
 
+SIM = {"quick": 150, "thorough": 2000}      # simulated behaviours per configuration (G-sim)
+
 # deviation -> smallest configuration whose counterexample shows it, and the invariant that fails
 PROBES = [
     ("UnserialisedProducers", K(2, "s", "s"), "NoSlotRace", "race"),
@@ -159,27 +161,30 @@ def expect(f, t, p, cap):
             "live": len(t[14]) - len(t[15]), "ret": ret, "got": got, "win": win}
 
 
-def build_plan(edges_path, plan_path, k):
-    """Read TLC's edge list, build the state graph and cover every edge with complete behaviours."""
-    ids = {}
-    src, dst, who, xs = [], [], [], []
-    cap = k["cap"]
-    with open(edges_path) as fh:
+def read_edges(path):
+    with open(path) as fh:
         for line in fh:
             line = line.strip()
             if not line:
                 continue
             cut = line.index(',"t":')
-            fs = line[5:cut]
             cut2 = line.rindex(',"p":')
-            ts = line[cut + 5:cut2]
-            p = int(line[cut2 + 5:-1])
-            u = ids.setdefault(fs, len(ids))
-            v = ids.setdefault(ts, len(ids))
-            src.append(u)
-            dst.append(v)
-            who.append(p)
-            xs.append(expect(json.loads(fs), json.loads(ts), p, cap))
+            yield line[5:cut], line[cut + 5:cut2], int(line[cut2 + 5:-1])
+
+
+def build_plan(edges_path, plan_path, k, sim_path=None):
+    """Read TLC's edge list, build the state graph and cover every edge with complete behaviours; add the
+    behaviours TLC's simulation mode walked (G-sim: the same edges reached through other, unmerged histories)."""
+    ids = {}
+    src, dst, who, xs = [], [], [], []
+    cap = k["cap"]
+    for fs, ts, p in read_edges(edges_path):
+        u = ids.setdefault(fs, len(ids))
+        v = ids.setdefault(ts, len(ids))
+        src.append(u)
+        dst.append(v)
+        who.append(p)
+        xs.append(expect(json.loads(fs), json.loads(ts), p, cap))
     n, m = len(ids), len(src)
     out = [[] for _ in range(n)]
     inn = [[] for _ in range(n)]
@@ -253,6 +258,43 @@ def build_plan(edges_path, plan_path, k):
                 mark(e)
             paths.append(path)
     assert all(covered)
+    ncover = len(paths)
+    if sim_path:
+        # simulation prints, for each state it visits, all out-edges; the walk continues at the next group's state
+        eidx = {(src[e], who[e]): e for e in range(m)}
+        walk, group, gf = [], [], None
+
+        def close(nextf):
+            """choose the edge of the finished group that the walk took"""
+            nonlocal walk
+            if not group:
+                return
+            pick = next((e for e in group if dst[e] == nextf), None)
+            if pick is None:                       # the walk ended here: terminal successor, or depth exhausted
+                pick = next((e for e in group if not out[dst[e]]), None)
+                if pick is None:
+                    pick = nxt[src[group[0]]]
+                walk.append(pick)
+                v = dst[pick]
+                while out[v]:
+                    walk.append(nxt[v])
+                    v = dst[nxt[v]]
+                paths.append(walk)
+                walk = []
+            else:
+                walk.append(pick)
+
+        for fs, ts, p in read_edges(sim_path):
+            u = ids.get(fs)
+            if u is None or (u, p) not in eidx:
+                raise vlib.ToolError("simulation visited a state / edge outside the exhaustive graph")
+            if u != gf:
+                close(u)
+                group, gf = [], u
+                if u == root and walk:
+                    raise vlib.ToolError("simulation walk restarted unexpectedly")
+            group.append(eidx[(u, p)])
+        close(-1)
     with open(plan_path, "w") as fh:
         fh.write(json.dumps(harness_cfg(k)) + "\n")
         for e in range(m):
@@ -260,8 +302,8 @@ def build_plan(edges_path, plan_path, k):
         for i, p in enumerate(paths):
             fh.write(json.dumps({"type": "path", "id": i, "steps": p}, separators=(",", ":")) + "\n")
     nontrivial = sum(1 for e in range(m) if who[e] != 0)
-    return {"states": n, "edges": m, "paths": len(paths), "steps": sum(len(p) for p in paths),
-            "thread_steps": nontrivial, "sample": [[who[e], xs[e]["lbl"]] for e in paths[len(paths) // 2]]}
+    return {"states": n, "edges": m, "paths": len(paths), "steps": sum(len(p) for p in paths), "cover_paths": ncover,
+            "sim_paths": len(paths) - ncover, "thread_steps": nontrivial, "sample": [[who[e], xs[e]["lbl"]] for e in paths[len(paths) // 2]]}
 
 
 # --------------------------------------------------------------------------- running things
@@ -283,16 +325,26 @@ def run_harness(plan, outbase, shards):
             p.kill()
             raise vlib.ToolError(f"ring shard {i} timed out")
         if p.returncode != 0:
-            # a crash of the process under test is data: attribute it to the schedule that was running
+            if p.returncode == 2 or "usage:" in err or "panicked at" in err and "src/bin/ring.rs" in err:
+                raise vlib.ToolError(f"ring shard {i} failed rc={p.returncode}: {err[-1500:]}")
+            # the process running the code under test died (signal / abort): that is data, attributed to the
+            # schedule that was running; divergences flushed before the crash are kept
             cur = None
             try:
-                cur = int(open(o + ".progress").read().strip())
-            except (OSError, ValueError):
+                cur = open(o + ".progress").read().strip()
+            except OSError:
                 pass
-            if cur is None:
-                raise vlib.ToolError(f"ring shard {i} failed rc={p.returncode}: {err[-1500:]}")
+            try:
+                with open(o) as fh:
+                    for line in fh:
+                        try:
+                            rows.append(json.loads(line))
+                        except ValueError:
+                            pass
+            except OSError:
+                pass
             rows.append({"type": "divergence", "rule": "MemSafe", "kind": "crash", "field": "process",
-                         "detail": f"harness process died rc={p.returncode} while executing path {cur}", "path": cur,
+                         "detail": f"process executing the schedules died rc={p.returncode} (schedule {cur})", "path": cur,
                          "stderr": err[-800:]})
             continue
         rows += vlib.read_ndjson(o)
@@ -323,7 +375,7 @@ def trace_to_sched(path):
 
 def probe_witness(ck, dev, k, inv, name):
     """Counterexample of the deviation-on model; returns (tlc result, schedule or None)."""
-    cfg = os.path.join(vlib.SPEC, f"MC_Ring_probe_{name}.gen.cfg")
+    cfg = os.path.join(vlib.SPEC, f"MC_Ring_probe_{name}.{os.getpid()}.gen.cfg")
     write_cfg(cfg, k, emit=False, deviations=(dev,), invariants=inv)
     tr = os.path.join(ck.dir, f"witness_{name}.json")
     if os.path.exists(tr):
@@ -343,10 +395,10 @@ def classify_witness(name, w):
         return bool(hit), "NoSlotRace", f"two threads own slot {hit[0]['slot']} at once: {hit[0]}" if hit else ""
     if name == "overwrite":
         # both sends returned Ok without overflow, one payload was overwritten in its slot
-        oks = [r for r in w.get("rets", []) if r[1] == "Ok"]
-        bad = w.get("complete") and len(oks) == 2 and w.get("tail") == 1 and w.get("live_after_teardown", 0) > 0
-        return bool(bad), "MemSafe", (f"two sends returned Ok without overflow, tail={w.get('tail')}: one payload was overwritten "
-                                      f"in its slot and never freed (live buffers after teardown: {w.get('live_after_teardown')})")
+        # both threads wrote the slot they had both reserved; the first payload is never dropped
+        bad = w.get("complete") and bool(w.get("race")) and w.get("live_after_teardown", 0) > 0
+        return bool(bad), "MemSafe", (f"two senders wrote slot {w['race'][0]['slot'] if w.get('race') else '?'}; the overwritten payload "
+                                      f"was never freed (live buffers after teardown: {w.get('live_after_teardown')})")
     if name in ("lostwakeup", "lostwakeup_stop"):
         flag = "closed" if name == "lostwakeup" else "ended"
         bad = w.get("complete") and w["labels"].get(str(C)) == "c_sleep" and not w.get("woken") and w.get(flag)
@@ -361,7 +413,7 @@ def classify_witness(name, w):
 
 def model_and_replay(ck, k, tier, shards):
     lab = label_of(k)
-    cfg = os.path.join(vlib.SPEC, f"MC_Ring_{lab}.gen.cfg")
+    cfg = os.path.join(vlib.SPEC, f"MC_Ring_{lab}.{os.getpid()}.gen.cfg")
     write_cfg(cfg, k, emit=True, invariants=SAFETY + " " + SAFETY_EXT)
     edges = os.path.join(ck.dir, f"edges_{lab}.ndjson")
     res = vlib.tlc("MC_Ring", os.path.basename(cfg), timeout=3000 if tier == "thorough" else 900, tags=("EDGE",),
@@ -372,12 +424,97 @@ def model_and_replay(ck, k, tier, shards):
 
 def liveness(k, tier):
     lab = label_of(k)
-    cfg = os.path.join(vlib.SPEC, f"MC_Ring_live_{lab}.gen.cfg")
+    cfg = os.path.join(vlib.SPEC, f"MC_Ring_live_{lab}.{os.getpid()}.gen.cfg")
     write_cfg(cfg, k, emit=False, invariants="", properties=LIVENESS + " " + LIVENESS_EXT)
     res = vlib.tlc("MC_Ring", os.path.basename(cfg), workers=2, timeout=3000 if tier == "thorough" else 900,
                    tag=f"MC_Ring_live_{lab}", heap="4g")
     os.remove(cfg)
     return lab, res
+
+
+# --------------------------------------------------------------------------- binding T: free-running stress
+
+STRESS = {
+    "quick": dict(Caps="{1, 2, 64}", NProds="{2, 4}", Mixes='{"mixed", "clone"}', Ops=16, chunks=4),
+    "thorough": dict(Caps="{1, 2, 3, 4, 8, 64}", NProds="{1, 2, 3, 4}", Mixes='{"send", "try", "many", "mixed", "clone"}',
+                     Ops=40, chunks=8),
+}
+T_RULE = {"recv_end/ok": "QueueOrder", "recv_end/eos": "DrainThenEos", "recv_end/pending": "NoLostWakeup",
+          "teardown": "NoLeakNoDoubleFree", "send_end": "CallResult"}
+
+
+def annotate(rows):
+    """recv_start carries the outcome of its call (taken from the matching recv_end), see Trace_Ring!RecvStart."""
+    pend = None
+    for r in rows:
+        if r["ev"] == "recv_start":
+            pend = r
+            r["res"], r["id"] = "pending", 0
+        elif r["ev"] == "recv_end":
+            r.setdefault("id", 0)
+            if pend is not None:
+                pend["res"], pend["id"] = r["res"], r["id"]
+                pend = None
+    return rows
+
+
+def stress_chunk(ck, i, scen):
+    sp = os.path.join(ck.dir, f"stress_scen_{i}.ndjson")
+    tp = os.path.join(ck.dir, f"stress_trace_{i}.ndjson")
+    vlib.write_ndjson(sp, scen)
+    p = vlib.run_bin("ring", ["stress", sp, tp], timeout=900)
+    os.remove(sp)
+    if p.returncode != 0:
+        # the free-running process died or a thread panicked inside the code under test: data
+        return i, None, [], {"rc": p.returncode, "stderr": p.stderr[-600:], "scenarios": scen[:3]}
+    rows = annotate(vlib.read_ndjson(tp))
+    vlib.write_ndjson(tp, rows)
+    rej = os.path.join(ck.dir, f"stress_rej_{i}.ndjson")
+    res = vlib.tlc("Trace_Ring", "Trace_Ring.cfg", timeout=1500, tags=("REJECTED",), sinks={"REJECTED": rej},
+                   env={"TRACE": tp, "JAVA_TOOL_OPTIONS": "-Dtlc2.tool.queue.IStateQueue=StateDeque"},
+                   tag=f"Trace_Ring_{i}", heap="4g")
+    rejected = vlib.read_ndjson(rej)
+    os.remove(rej)
+    os.remove(tp)
+    return i, res, rows, rejected
+
+
+def stress(ck, tier):
+    """TLC enumerates the configuration space; free-running threads log call start/end; Trace_Ring validates."""
+    s = STRESS[tier]
+    cfg = os.path.join(vlib.SPEC, f"MC_RingStress.{os.getpid()}.gen.cfg")
+    with open(cfg, "w") as f:
+        f.write(f"SPECIFICATION Spec\nCONSTANTS\n  Caps = {s['Caps']}\n  NProds = {s['NProds']}\n  Mixes = {s['Mixes']}\n"
+                f"  Ops = {s['Ops']}\nINVARIANT Emit\nCHECK_DEADLOCK FALSE\n")
+    sp = os.path.join(ck.dir, "stress_scen.ndjson")
+    res = vlib.tlc("MC_RingStress", os.path.basename(cfg), timeout=300, tags=("SCEN",), sinks={"SCEN": sp},
+                   tag="MC_RingStress", heap="1g")
+    os.remove(cfg)
+    vlib.tlc_ok(res, "stress configurations")
+    scen = vlib.read_ndjson(sp)
+    os.remove(sp)
+    n = s["chunks"]
+    chunks = [scen[i::n] for i in range(n)]
+    out = {"scenarios": len(scen), "events": 0, "states": 0, "rejected": []}
+    with cf.ThreadPoolExecutor(max_workers=n) as ex:
+        for i, tres, rows, rejected in ex.map(lambda a: stress_chunk(ck, *a), enumerate(chunks)):
+            if tres is None:
+                ck.divergence({"sub": "ring", "rule": "MemSafe", "kind": "stress-crash"}, rejected)
+                continue
+            ck.add_tlc(tres, f"trace validation chunk {i}")
+            out["events"] += len(rows)
+            if rejected:
+                at = rejected[0]["at"]
+                ev = rows[at - 1] if at <= len(rows) else {"ev": "end"}
+                key = ev["ev"] + ("/" + ev.get("res", "") if ev["ev"] == "recv_end" else "")
+                first = max(j for j in range(at) if rows[j]["ev"] == "reset")
+                ck.divergence({"sub": "ring", "rule": T_RULE.get(key, "TraceConformance"), "kind": "trace", "event": key},
+                              {"rule": T_RULE.get(key, "TraceConformance"), "rejected_at": ev, "scenario": rows[first].get("cfg"),
+                               "trace": rows[first:at + 3]})
+                out["rejected"].append(key)
+            elif tres["errors"] or tres["rc"] != 0 or tres.get("timeout"):
+                vlib.tlc_ok(tres, f"trace validation chunk {i}")
+    return out
 
 
 def one_config(ck, k, tier, shards):
@@ -386,12 +523,23 @@ def one_config(ck, k, tier, shards):
     lab, res, edges = model_and_replay(ck, k, tier, shards)
     if res.get("timeout") or res["errors"] or res["rc"] != 0:
         return dict(k=k, lab=lab, res=res, st=None, rows=[])
+    # G-sim: random complete behaviours of the same model (other histories into the same states)
+    cfg = os.path.join(vlib.SPEC, f"MC_Ring_sim_{lab}.{os.getpid()}.gen.cfg")
+    write_cfg(cfg, k, emit=True, invariants="TypeOK")
+    sim = os.path.join(ck.dir, f"sim_{lab}.ndjson")
+    nsim = SIM[tier]
+    sres = vlib.tlc("MC_Ring", os.path.basename(cfg), timeout=600, tags=("EDGE",), sinks={"EDGE": sim}, simulate=nsim,
+                    depth=400, tag=f"MC_Ring_sim_{lab}", heap="2g")
+    os.remove(cfg)
+    if sres.get("timeout") or sres["errors"]:
+        return dict(k=k, lab=lab, res=sres, st=None, rows=[])
     t1 = time.time()
     plan = os.path.join(ck.dir, f"plan_{lab}.ndjson")
-    st = build_plan(edges, plan, k)
+    st = build_plan(edges, plan, k, sim)
+    os.remove(sim)
     t2 = time.time()
     rows = run_harness(plan, os.path.join(ck.dir, f"replay_{lab}"), shards)
-    vlib.log(f"[C20] {lab}: {st['states']} states {st['edges']} edges -> {st['paths']} schedules / {st['steps']} steps; "
+    vlib.log(f"[C20] {lab}: {st['states']} states {st['edges']} edges -> {st['cover_paths']}+{st['sim_paths']} schedules / {st['steps']} steps; "
              f"tlc {t1 - t0:.0f}s plan {t2 - t1:.0f}s replay {time.time() - t2:.0f}s")
     os.remove(plan)
     os.remove(edges)
@@ -412,7 +560,9 @@ def run(tier):
         futs = {label_of(k): ex.submit(one_config, ck, k, tier, shards) for k in order}
         pfuts = [(dev, k, inv, name, ex.submit(probe_witness, ck, dev, k, inv, name)) for dev, k, inv, name in PROBES]
         lfuts = [ex.submit(liveness, k, tier) for k in live_cfgs]
+        sfut = ex.submit(stress, ck, tier)
         done = [futs[label_of(k)].result() for k in cfgs]
+        st_out = sfut.result()
         lv = [f.result() for f in lfuts]
         pw = [(dev, k, inv, name) + f.result() for dev, k, inv, name, f in pfuts]
     vlib.log(f"[C20] TLC + replay done in {time.time() - t0:.0f}s")
@@ -473,7 +623,8 @@ def run(tier):
             else:
                 ck.divergence({"sub": "ring", "rule": rule, "kind": "witness", "deviation": dev}, rec)
     os.remove(plan)
-    ck.cov["traces_validated_against_impl"] = tot["paths"] + len(probes)
+    ck.cov["stress"] = st_out
+    ck.cov["traces_validated_against_impl"] = tot["paths"] + len(probes) + st_out["scenarios"]
     ck.cov["evaluations"] = tot["steps"]
     ck.cov["distinct_nontrivial"] = tot["thread_steps"]
     ck.cov["exhaustive"] = exhaustive
@@ -531,11 +682,55 @@ def selftest():
         print(f"selftest: Deviations={{{dev}}} violates {inv} on {label_of(k)}: {good} ({len(sched or [])} steps)")
         ok &= good
     k = K(1, "")
-    cfg = os.path.join(vlib.SPEC, "MC_Ring_selftest_live.gen.cfg")
+    cfg = os.path.join(vlib.SPEC, f"MC_Ring_selftest_live.{os.getpid()}.gen.cfg")
     write_cfg(cfg, k, deviations=("NotifiedAfterCheck",), invariants="", properties="CloseLeadsToEos")
     res = vlib.tlc("MC_Ring", os.path.basename(cfg), workers=2, timeout=600, tag="MC_Ring_selftest_live")
     os.remove(cfg)
     good = any("CloseLeadsToEos" in e or "Temporal" in e for e in res["errors"])
     print(f"selftest: Deviations={{NotifiedAfterCheck}} violates liveness CloseLeadsToEos: {good}")
     ok &= good
+    # non-vacuity: the situations the rules speak about are reachable in the quick configurations
+    nv = {"NV_DropOldest": K(1, "ss"), "NV_TrylockFails": K(1, "ss"), "NV_WouldBlock": K(1, "s", "t", own=True),
+          "NV_PopFindsEmpty": K(1, "ss"), "NV_Sleeps": K(1, "ss"), "NV_WakeupAnte": K(1, "ss"), "NV_DrainAnte": K(1, "ss"),
+          "NV_EosByStopEarly": K(2, "st", stop=True), "NV_PermitPath": K(1, "ss"), "NV_GenerationPath": K(1, "ss"),
+          "NV_RecheckNonEmpty": K(1, "s", "s"), "NV_RingDropFrees": K(2, "st", stop=True),
+          "NV_DropNotLast": K(1, "sc", "s", own=True), "NV_ArcNotLast": K(1, "s", "s"), "NV_LockContended": K(1, "s", "s"),
+          "NV_ConsumerBlocked": K(1, "ss")}
+
+    def one(name, k, expect_violation):
+        cfg = os.path.join(vlib.SPEC, f"MC_Ring_{name}.{os.getpid()}.gen.cfg")
+        write_cfg(cfg, k, invariants=name)
+        res = vlib.tlc("MC_Ring", os.path.basename(cfg), workers=2, timeout=600, tag=f"MC_Ring_{name}", heap="2g")
+        os.remove(cfg)
+        hit = any(name in e for e in res["errors"])
+        return name, hit == expect_violation, hit
+
+    with cf.ThreadPoolExecutor(max_workers=6) as ex:
+        futs = [ex.submit(one, n, k, True) for n, k in nv.items()]
+        futs += [ex.submit(one, n, k, False) for n in ("Dead_SecondPushFull", "Dead_SenderSeesClosed")
+                 for k in (K(1, "ss"), K(1, "s", "s"), K(2, "st", stop=True))]
+        for f in futs:
+            name, good, hit = f.result()
+            print(f"selftest: {name}: {'reachable' if hit else 'unreachable'} -> {'ok' if good else 'UNEXPECTED'}")
+            ok &= good
+    # the binding binds: corrupt one expected field of a recorded edge -> the replay must diverge
+    vlib.build_harness(["ring"])
+    k = K(1, "ss")
+    lab, res, edges = model_and_replay(ck, k, "quick", 1)
+    plan = os.path.join(ck.dir, "plan_selftest.ndjson")
+    build_plan(edges, plan, k)
+    rows = [json.loads(l) for l in open(plan)]
+    for field, val in (("tail", 7), ("lbl", "push_w"), ("live", 5), ("woken", True), ("ret", "WouldBlock")):
+        mut = [dict(r) for r in rows]
+        idx = [i for i, r in enumerate(mut) if r["type"] == "edge" and r["p"] != 0][len(mut) // 40]
+        mut[idx] = dict(mut[idx], x=dict(mut[idx]["x"], **{field: val}))
+        with open(plan, "w") as fh:
+            for r in mut:
+                fh.write(json.dumps(r) + "\n")
+        out = run_harness(plan, os.path.join(ck.dir, "replay_selftest"), 2)
+        div = [r for r in out if r.get("type") == "divergence" and r.get("field") == field]
+        print(f"selftest: corrupted expectation {field} of edge {mut[idx]['i']} -> {len(div)} divergence(s) on that field")
+        ok &= len(div) > 0
+    os.remove(plan)
+    os.remove(edges)
     raise SystemExit(0 if ok else 2)
